@@ -601,6 +601,7 @@ ima_read_s (SF_PRIVATE *psf, short *ptr, sf_count_t len)
 
 	while (len > 0)
 	{	readcount = (len > 0x10000000) ? 0x10000000 : (int) len ;
+		readcount -= readcount % pima->channels ;
 
 		count = ima_read_block (psf, pima, ptr + total, readcount) ;
 
@@ -906,6 +907,7 @@ ima_write_s (SF_PRIVATE *psf, const short *ptr, sf_count_t len)
 
 	while (len)
 	{	writecount = (len > 0x10000000) ? 0x10000000 : (int) len ;
+		writecount -= writecount % pima->channels ;
 
 		count = ima_write_block (psf, pima, ptr + total, writecount) ;
 
